@@ -1360,10 +1360,13 @@ func (p *scionPacketProcessor) validateEgressID() disposition {
 	egressLink := p.d.interfaces[egressID]
 
 	// egress interface must be a known interface
-	// egress is never the internal interface (already checked)
+	// egress is never the internal interface: packets for the local AS were handled as inbound,
+	// so a hop field that names interface 0 here cannot be routed (and a packet received from a
+	// sibling or external link carries no underlay destination for the internal link).
 	// packet coming from internal interface, must go to an external interface
 	// Note that, for now, ingress == 0 is also true for sibling interfaces. That might change.
-	if egressLink == nil || (p.ingressFromLink == 0 && egressLink.Scope() == Sibling) {
+	if egressLink == nil || egressID == 0 ||
+		(p.ingressFromLink == 0 && egressLink.Scope() == Sibling) {
 		errCode := slayers.SCMPCodeUnknownHopFieldEgress
 		if !p.infoField.ConsDir {
 			errCode = slayers.SCMPCodeUnknownHopFieldIngress
